@@ -2,6 +2,7 @@ package props
 
 import (
 	"fmt"
+	"github.com/go-kid/ioc/container/processors"
 	"math/rand"
 	"reflect"
 	"strings"
@@ -102,7 +103,14 @@ func (p c06) contributedProviders(c *core.Ctx) {
 		{Name: "One", Type: world.TypeIA, Tag: `wire:"contributed-0"`},
 		{Name: "Any", Type: reflect.SliceOf(world.TypeAny), Tag: `wire:",required=false"`},
 	}))
-	r := world.Start(g.Sc, world.Options{Extra: []any{h, reg}})
+	extra := []any{h, reg}
+	if c.Rng.Intn(3) == 0 {
+		// the library's exported by-type resolver registered next to the default resolver: a component offered
+		// by two resolvers is still one candidate
+		extra = append(extra, processors.NewDependencyTypeAwarePostProcessors())
+		c.Count("starts_with_the_exported_by_type_resolver_registered_too", 1)
+	}
+	r := world.Start(g.Sc, world.Options{Extra: extra})
 	c.Count("starts", 1)
 	c.Count("starts_with_programmatically_contributed_providers", 1)
 	detail := failDetail(g.Sc, r, map[string]any{"contributed": len(contributed), "via_register_meta": reg.ViaRegisterMeta})
